@@ -1678,7 +1678,15 @@ func (d *DFA) tryDetectAccelerationWithCache(state *State, cache *DFACache) {
 
 	var exitBytes []byte
 	if cache != nil && cache.stride > 0 {
-		exitBytes = DetectAccelerationFromFlat(state.ID(), cache.flatTrans, cache.stride, d.byteClasses)
+		sid, ft := state.ID(), cache.flatTrans
+		exitBytes = detectSoundAccel(sid, cache.stride, func(classIdx int) (StateID, bool) {
+			offset := safeOffset(sid, classIdx)
+			if offset >= len(ft) {
+				return InvalidState, false
+			}
+			next := ft[offset]
+			return next, next != InvalidState
+		}, d.byteClasses)
 	}
 	if len(exitBytes) > 0 {
 		state.SetAccelBytes(exitBytes)
